@@ -4,6 +4,9 @@ import (
 	"bytes"
 	"encoding/json"
 	"fmt"
+	"os"
+	"runtime/debug"
+	"syscall"
 
 	"github.com/hslam/rpc"
 	vs "verif/shim/vsync"
@@ -719,4 +722,87 @@ func c07Reregistered(x *X) {
 
 func init() {
 	register(&Scenario{Prop: "C07", Name: "c07/builtin-codec-name-reregistered", Quick: []Bound{{0, 0}}, Thorough: []Bound{{0, 0}}, Body: c07Reregistered, MinHB: 1})
+}
+
+// bodies of hundreds of megabytes: the five-byte forms of the length prefix (2^28 and beyond; 2^29+5 has bit 28
+// clear and bit 29 set).  The length prefix right in front of the body is the varint of its length, and
+// decode(encode(x)) has the whole body.  The contents are sampled (every 4093rd byte and both ends).  One
+// execution at a time holds the buffers (a lock file serialises the worker processes).
+var c07HugeSizes = []int{1<<28 - 1, 1 << 28, 1<<29 + 5}
+
+func bigLock() func() {
+	f, err := os.OpenFile(os.TempDir()+"/verif-mc-big.lock", os.O_CREATE|os.O_RDWR, 0666)
+	if err != nil {
+		return func() {}
+	}
+	syscall.Flock(int(f.Fd()), syscall.LOCK_EX)
+	return func() {
+		debug.FreeOSMemory()
+		syscall.Flock(int(f.Fd()), syscall.LOCK_UN)
+		f.Close()
+	}
+}
+
+func c07Huge(sizes []int) func(x *X) {
+	return func(x *X) {
+		encName := []string{"pb", "code", ""}[x.Choose(3)]
+		kind := x.Choose(2)
+		size := sizes[x.Choose(len(sizes))]
+		defer bigLock()()
+		body := make([]byte, size)
+		sample := func(b []byte, i int) byte { return b[i] }
+		for i := 0; i < size; i += 4093 {
+			body[i] = byte(i>>12) | 1
+		}
+		copy(body[size-8:], "TheEnd!!")
+		enc := wireEncoder(encName)
+		h := hdrCase{kind: kind, seq: 77, body: body}
+		if kind == 0 {
+			h.text = "Svc.Echo"
+		}
+		kindName := []string{"request", "response"}[kind]
+		tag := encLabel(encName) + "/" + kindName
+		var data []byte
+		var err error
+		func() {
+			defer func() {
+				if r := recover(); r != nil {
+					err = fmt.Errorf("encoder panicked: %v", r)
+				}
+			}()
+			data, err = enc.NewCodec().Marshal(nil, newMsg(enc, h))
+		}()
+		if err != nil || len(data) < size {
+			x.Fail("C07/encode-error/"+tag, "encoding a %d-byte body failed: %v (%d bytes)", size, err, len(data))
+			return
+		}
+		pre := data[:len(data)-size]
+		if lp := uvarint(nil, uint64(size)); !bytes.HasSuffix(pre, lp) {
+			tail := pre
+			if len(tail) > 8 {
+				tail = tail[len(tail)-8:]
+			}
+			x.Fail("C07/format/"+tag, "the length prefix in front of a %d-byte body is not its varint %x: the %d header bytes end with %x", size, lp, len(pre), tail)
+		}
+		got, derr := decodeMsg(enc, kind, data)
+		if derr != nil || len(got.body) != size || got.seq != h.seq || got.text != h.text {
+			x.Fail("C07/roundtrip/"+tag, "decode(encode(x)) != x for a %d-byte body: err=%v, got seq=%d text=%q and a %d-byte body", size, derr, got.seq, got.text, len(got.body))
+		} else {
+			for i := 0; i < size; i += 4093 {
+				if sample(got.body, i) != sample(body, i) {
+					x.Fail("C07/roundtrip/"+tag, "decode(encode(x)) of a %d-byte body differs at byte %d", size, i)
+					break
+				}
+			}
+			if string(got.body[size-8:]) != "TheEnd!!" {
+				x.Fail("C07/roundtrip/"+tag, "decode(encode(x)) of a %d-byte body: the last bytes differ", size)
+			}
+		}
+		x.Outcome("%s size=%d hdr=%d", tag, size, len(pre))
+		data, body, got.body = nil, nil, nil
+	}
+}
+
+func init() {
+	register(&Scenario{Prop: "C07", Name: "c07/half-gigabyte-bodies", Quick: []Bound{{0, 0}}, Thorough: []Bound{{0, 0}}, Body: c07Huge(c07HugeSizes[1:]), MinHB: 1, BudgetQ: 120, BudgetT: 300})
 }
